@@ -16,7 +16,7 @@ if ! go build ./... 2>"$wt.log" || ! go build -tags verif ./... 2>>"$wt.log"; th
 if ! go test -vet=off -count=1 ./... >"$wt.log" 2>&1; then echo "SUITE-FAILS $patch"; grep -m3 FAIL "$wt.log"; rm -f "$wt.log"; exit 2; fi
 rm -f "$wt.log"
 for p in "$@"; do
-  out=$(cd /verif && VERIF_REPO="$wt" VERIF_NO_EVIDENCE=1 VERIF_REPLAY_DIR=/tmp/verif-benign-replays ./check "$p" quick 2>&1)
+  out=$(cd ${VERIF_DIR:-/verif} && VERIF_REPO="$wt" VERIF_NO_EVIDENCE=1 VERIF_REPLAY_DIR=/tmp/verif-benign-replays ./check "$p" quick 2>&1)
   rc=$?
   if [ $rc -eq 1 ]; then echo "ALARM    $p on $patch: $(echo "$out" | grep -m1 'check=' | cut -c1-300)";
   elif [ $rc -eq 0 ]; then echo "QUIET    $p on $patch";
